@@ -451,8 +451,9 @@ func (dec *Decoder) prealloc(count int) int {
 
 // maxDepth bounds the nesting of lists, maps and objects in the input. Every level is a level
 // of recursion in the decoder: without a bound a few megabytes of "a1{a1{a1{..." exhaust
-// the goroutine stack, which no recover can catch.
-const maxDepth = 10000
+// the goroutine stack, which no recover can catch. A hundred thousand levels (a linked
+// list of that length, written as nested objects) stay far below that.
+const maxDepth = 100000
 
 // enter is called by the decoders of containers; it fails when the input nests too deep.
 func (dec *Decoder) enter() bool {
